@@ -17,7 +17,8 @@ import PcbV.Gen.Errors
   Values: every variable is a 16-bit integer variable (`V%`), values are `Int` with the range check
   that `values.to_type('%', …)` / `Integer.iadd` perform (Overflow, error 6).  The relation to the byte
   level model `PcbV.IntOps` (property C02) is stated in `PcbV.C19.counter_step_agrees_with_IntOps`.
-  Expressions are + − and the six comparisons on integers; the implementation evaluates them in single
+  Expressions are + − and the six comparisons on integers (and fractional constants n/d in the places where
+  the value is converted to an integer at once, see `Expr.eval`); the implementation evaluates them in single
   precision, which is exact below 2^24 (the generator keeps expression depth ≤ 3, so |value| < 2^19).
 
   Positions: a program is flattened to a list of `Instr` (statement + "first statement of line n"
@@ -37,6 +38,7 @@ inductive Expr
   | lit (n : Int)
   | var (v : Nat)
   | bin (op : BinOp) (a b : Expr)
+  | frac (n : Int) (d : Nat)       -- the fractional constant n/d, only where the value goes into an integer
   deriving DecidableEq, Repr
 
 inductive Stmt
@@ -93,10 +95,21 @@ def BinOp.apply : BinOp → Int → Int → Int
   | .gt, x, y => boolVal (decide (x > y))
   | .ge, x, y => boolVal (decide (x ≥ y))
 
+/-- conversion of the rational n/d to the integer type (`values.to_type('%', …)`, CINT): nearest integer,
+    halves away from zero -/
+def cintLit (n : Int) (d : Nat) : Int :=
+  let q : Int := ((2 * n.natAbs + d) / (2 * d) : Nat)
+  if n < 0 then -q else q
+
+/-- value of an expression.  A fractional constant stands only where the implementation converts the
+    value to an integer at once — FOR start / stop / step of an integer counter (`for_` converts all three
+    BEFORE it takes the step's sign and tests for an empty loop), LET to an integer variable, ON — so its
+    value is the converted one; it is never an operand, a PRINT argument or a condition. -/
 def Expr.eval (env : Env) : Expr → Int
   | .lit n => n
   | .var v => env v
   | .bin op a b => op.apply (a.eval env) (b.eval env)
+  | .frac n d => cintLit n d
 
 /-- `Integer.sign()` -/
 def sign (n : Int) : Int := if n < 0 then -1 else if n = 0 then 0 else 1
